@@ -2,6 +2,7 @@
 //! Every sub-command reads NDJSON records on stdin (produced from TLC output by py/verif) and
 //! writes NDJSON results on stdout.  Panics of the code under test are data, not tool errors.
 mod graph;
+mod parse;
 mod pathnorm;
 mod pred;
 mod util;
@@ -17,6 +18,8 @@ fn main() {
         "tsort" => graph::run_tsort(&rest),
         "pathnorm" => pathnorm::run(&rest),
         "pred" => pred::run(&rest),
+        "parse-expr" => parse::run_expr(&rest),
+        "parse-eq" => parse::run_eq(&rest),
         _ => {
             eprintln!("unknown sub-command {sub:?}");
             2
